@@ -244,6 +244,29 @@ func c19Main(args []string) error {
 					emit("mut freelist-drop-last", img)
 				})
 			}
+			// ... and APPENDED, so that nothing else changes
+			if fh.count != 0xFFFF && idsOff+8*(cnt+1) <= (flPage+fh.ov+1)*ps && cnt+1 < 0xFFFF {
+				for _, own := range []int{flPage, 1, 0} {
+					own := own
+					add(func() {
+						img := clone()
+						binary.LittleEndian.PutUint16(img[flPage*ps+10:], uint16(cnt+1))
+						binary.LittleEndian.PutUint64(img[idsOff+8*cnt:], uint64(own))
+						emit(fmt.Sprintf("mut freelist-add-own-or-meta-page %d", own), img)
+					})
+				}
+			}
+			// the freelist's own page (reachable from the meta) or a meta page listed as free
+			if cnt > 0 {
+				for _, own := range []int{flPage, 1, 0} {
+					own := own
+					add(func() {
+						img := clone()
+						binary.LittleEndian.PutUint64(img[idsOff+8*(cnt-1):], uint64(own))
+						emit(fmt.Sprintf("mut freelist-has-own-or-meta-page %d", own), img)
+					})
+				}
+			}
 			// list a reachable page (and an overflow page of a reachable run) as free
 			for _, p := range append(append([]int{}, leaves...), branches...) {
 				p := p
